@@ -20,6 +20,8 @@ EXPLANATION = (
     '(no centre, angle, vertices, start, end), and the polygon area is |shoelace|/2 for n = 3, 4, 5 symbolic vertices and invariant '
     'under R1\'s rotation about any pivot. Not decided: exactness of integer translations in floating point; polygons beyond n = 5 '
     '(the code is uniform in n).')
+EXPLANATION_ADDED2 = (' (R4b) the area is computed in floating point: no product / power of size attributes in their own (possibly fixed-width integer) dtype (dataflow of C01.R9).')
+EXPLANATION += EXPLANATION_ADDED2
 TRUSTED = ['np.matmul of a 2x2 matrix and a 2-vector', 'np.cos/np.sin', 'copy.deepcopy yields an equal independent value']
 ASSUMPTIONS = ['real arithmetic']
 
@@ -301,9 +303,34 @@ def _polygon_area(ctx, ci, f):
     ctx.ok(construct, 'shoelace form for n = 3, 4, 5 symbolic vertices; invariant under rotation about any pivot')
 
 
+def r4b(ctx):
+    """the area is the real-number area whatever type the sizes were given in: PositiveScalar stores np.int16(200) as it is,
+    and `radius ** 2` / `width * height` in that dtype wrap around (a negative area) — the may-be-integer dataflow of C01.R9
+    over every `area`, with the size attributes and vertex arrays as possibly-integer sources."""
+    from .c01 import _DtypeLint
+    m = ctx.model
+    n = 0
+    for ci in m.region_classes('pixel'):
+        f = ci.methods.get('area')
+        if f is None:
+            continue
+        n += 1
+        lint = _DtypeLint(ctx, m, sums=False, int_descr_kinds=('PositiveScalar',))
+        lint.fn(f, ['scalar'])
+        if lint.problems:
+            fi, node, text = lint.problems[0]
+            ctx.bad(f'{ci.name}.area', 'fixed-width-size',
+                    f'{text}: with sizes given as fixed-width numpy integers the product wraps around (np.int16(200) ** 2 is '
+                    '-25536); convert to float first', fi.loc(node))
+        else:
+            ctx.ok(f'{ci.name}.area', 'no product / power of possibly-integer sizes')
+    ctx.need(n >= 6, 'area properties', f'only {n} found')
+
+
 RULES = [
     RuleDef('R1', 'PixCoord.rotate is the rotation matrix about the pivot (isometry)', r1, 1),
     RuleDef('R2', 'region.rotate completeness for every concrete pixel class', r2, 12),
     RuleDef('R3', 'whole-pixel translation: box moves by N, mask kernel inputs do not change', r3, 10),
     RuleDef('R4', 'area does not depend on position or orientation (shoelace for polygons)', r4, 12),
+    RuleDef('R4b', 'area is computed in floating point (sizes given as fixed-width integers cannot wrap)', r4b, 6),
 ]
